@@ -9,6 +9,9 @@ import LitexProofs.Periph.SpiCount
 import LitexProofs.Periph.SpiSlave
 import LitexProofs.Periph.I2cWrite
 import LitexProofs.Periph.I2cPad
+import LitexProofs.Periph.UartSys
+import LitexProofs.Periph.SpiSeq
+import LitexProofs.Periph.GlueMisc
 /-
   C19 — Serial peripherals and timers produce exact waveforms and always finish.
 
@@ -731,5 +734,159 @@ example :
     let st := fun (l k : Nat) => i2cMaster.runFrom { i2cMaster.init with load := l } (ins.take k)
     ((st 1 17).sdaOe = true ∧ (st 1 18).sdaOe = false ∧ (st 1 17).m.scl = false ∧ (st 1 18).m.scl = false) ∧
     (List.range 29).all (fun k => (st 0 (k + 3)).sdaOe) = true := by decide +kernel
+
+/-! ## UART top level (CSR side, the two buffered FIFOs, the PHY) -/
+
+/-- **uart_top_no_loss_in_order.**  `UART(tx_fifo_depth = dtx, rx_fifo_depth = drx, rx_fifo_rx_we)`, every history of
+    software accesses and PHY handshakes from reset (the two FIFOs are the C03 element `syncFifoBuffered`, whose history
+    relation is reused):
+      * the bytes written to `rxtx` while `txfull = 0` = the bytes handed to the PHY ++ what waits in the TX FIFO (output
+        register, then queue): nothing lost, duplicated or reordered, at most `dtx + 1` waiting;
+      * the bytes accepted from the PHY (`rxfull = 0`) = the bytes software took from `rxtx` ++ what waits in the RX FIFO;
+      * `txfull/txempty/rxfull/rxempty`, the two event triggers, `source.valid`, `sink.ready`, `rxtx.w` and `source.data`
+        are the stated functions of the FIFO levels and output registers. -/
+theorem uart_top_no_loss_in_order (dtx drx : Nat) (rxWe : Bool) (ins : List UartTopIn) (i : UartTopIn) :
+    let m := uartTopM dtx drx rxWe
+    let s := m.run ins
+    utWritten dtx drx rxWe m.init ins = utSent dtx drx rxWe m.init ins ++ (fbInflight s.tx).map (·.data) ∧
+    s.tx.q.length ≤ dtx ∧
+    utReceived dtx drx rxWe m.init ins = utRead dtx drx rxWe m.init ins ++ (fbInflight s.rx).map (·.data) ∧
+    s.rx.q.length ≤ drx ∧
+    (let o := m.out s i
+     o.txfull = (s.tx.q.length == dtx) ∧ o.txempty = !s.tx.readable ∧ o.rxfull = (s.rx.q.length == drx) ∧
+     o.rxempty = !s.rx.readable ∧ o.trigTx = !o.txfull ∧ o.trigRx = !o.rxempty ∧ o.sinkRdy = !o.rxfull ∧
+     o.srcV = !o.txempty ∧ o.srcD = s.tx.dout.data ∧ o.w = s.rx.dout.data) := by
+  intro m s
+  have htx := fb_token_rel dtx (ins.map utTxIn)
+  have hrx := fb_token_rel drx (ins.map (utRxIn rxWe))
+  simp only at htx hrx
+  have etx : s.tx = (Stream.syncFifoBuffered dtx zTokN).runFrom (Stream.syncFifoBuffered dtx zTokN).init (ins.map utTxIn) :=
+    uartTop_tx_run dtx drx rxWe ins m.init
+  have erx : s.rx = (Stream.syncFifoBuffered drx zTokN).runFrom (Stream.syncFifoBuffered drx zTokN).init
+      (ins.map (utRxIn rxWe)) := uartTop_rx_run dtx drx rxWe ins m.init
+  refine ⟨?_, by rw [etx]; exact htx.2, ?_, by rw [erx]; exact hrx.2, uartTop_flags dtx drx s i⟩
+  · rw [utWritten_eq, utSent_eq, etx, ← List.map_append]
+    exact congrArg _ htx.1
+  · rw [utReceived_eq, utRead_eq, erx, ← List.map_append]
+    exact congrArg _ hrx.1
+
+example :
+    let m := uartTopM 2 2 false
+    let w : Nat → UartTopIn := fun d => ⟨true, d, false, false, false, 0, false⟩
+    let ins := [w 0x41, w 0x42, w 0x43, w 0x44, ⟨false, 0, false, false, false, 0, true⟩]
+    utWritten 2 2 false m.init ins = [0x41, 0x42, 0x43] ∧ utSent 2 2 false m.init ins = [0x41] := by decide
+
+/-- **The byte on the wire is the byte popped, once.**  In `UART(RS232PHY)`: a byte `d` in the TX FIFO's output
+    register while the transmitter idles — `1 + r` cycles later (`r·tw < 10·2^32`, any software and pad activity) the
+    pad carries bit `⌊r·tw/2^32⌋` of the frame of `d`, the FIFO still offers the same byte, and the FIFO's pop strobe
+    (`sink.ready` of the transmitter) is high exactly in the last cycle of the stop bit: together with
+    `uart_top_no_loss_in_order` every written byte is framed exactly once, in order. -/
+theorem uart_sys_tx_once (tw dtx drx : Nat) (rxWe : Bool) (htw : tw < M32) (s : UartSysSt) (f : Nat → UartSysIn)
+    (hidle : s.txp.run = false) (hv : s.top.tx.readable = true) (hd : s.top.tx.dout.data < 256) (r : Nat)
+    (hr : r * tw < 10 * M32) :
+    let st := runFn (uartSysM tw dtx drx rxWe) s f (1 + r)
+    (uartSysM tw dtx drx rxWe).out st (f (1 + r)) = frameBit s.top.tx.dout.data (r * tw / M32) ∧
+    st.top.tx.readable = true ∧ st.top.tx.dout = s.top.tx.dout ∧
+    (uartSysTopIn tw st (f (1 + r))).srcRdy = decide (10 * M32 ≤ (r + 1) * tw) := by
+  intro st
+  obtain ⟨h1, h2, h3⟩ := uartSys_tx_frame tw dtx drx rxWe htw s f hidle hv hd r hr
+  have hb : r * tw / M32 ≤ 10 := by unfold M32 at *; omega
+  refine ⟨?_, h2, h3, ?_⟩
+  · show st.txp.tx = _
+    rw [h1]; exact txHwBit_eq_frameBit _ _ hd hb
+  · rw [uartSys_pop, h1]
+    by_cases hl : 10 * M32 ≤ (r + 1) * tw
+    · simp [hl, (tx_last tw _ r htw hd ⟨false, 0⟩ hr hl).1]
+    · simp [hl, tx_not_ready tw _ r (by omega)]
+
+/-! ## SPI master: sequences of transfers, chip-select vector, manual CS mode -/
+
+/-- **spi_master_idle_inv.**  When `done` returns after a transfer the state is clean (`IdleOk`: IDLE, clock low,
+    divider inside its period) and stays so through any number of cycles without `start` (`done = 1`, clock low, no
+    irq).  `IdleOk` is exactly the hypothesis of `spi_master_start`, which is stated for an arbitrary length: transfers
+    of different lengths (and words, and start times) can follow each other, each with the waveform of
+    `spi_master_xfer`. -/
+theorem spi_master_idle_inv (c : SpiCfg) (div L w m0 : Nat) (hdiv : 2 ≤ div) (hd16 : div < 65536) (hL : 1 ≤ L)
+    (hLw : L ≤ c.dw) (f : Nat → SpiIn) (hf : ∀ t, SpiHold div L (f t)) (s0 : SpiSt)
+    (h0 : RunInv c div L w m0 (spiSmp f div) 0 0 s0)
+    (idle : List SpiIn) (hidle : ∀ x ∈ idle, x.div = div ∧ x.start = false) :
+    let sd := runFn (spiMaster c) s0 f (L * div + div / 2)
+    IdleOk div sd ∧ IdleOk div ((spiMaster c).runFrom sd idle) ∧
+    ∀ o ∈ (spiMaster c).traceFrom sd idle, o.done = true ∧ o.clk = false ∧ o.irq = false := by
+  intro sd
+  have hstop := spi_stop c div L w m0 hdiv hd16 hL hLw f hf s0 h0
+  have hk : div / 2 - 1 < div / 2 := by omega
+  have hcnt := spi_stop_last_cnt c div L m0 (spiSmp f div) hdiv hd16 (div / 2 - 1) (by omega) _
+    (f (L * div + (div / 2 - 1))) (hf _) (hstop.1 _ hk)
+  have e2 : L * div + div / 2 = L * div + (div / 2 - 1) + 1 := by omega
+  have hok : IdleOk div sd := by
+    refine ⟨hstop.2.fsm, ?_, hstop.2.clk⟩
+    show (runFn (spiMaster c) s0 f (L * div + div / 2)).cnt < div
+    rw [e2]
+    show (spiNext c _ _).cnt < div
+    rw [hcnt]; omega
+  have hrun := spi_idle_run c div hdiv hd16 idle hidle sd hok
+  exact ⟨hok, hrun.1, hrun.2⟩
+
+/-- **Chip-select vector and manual mode** (`len(pads.cs_n) = ncs`).  For every state, input and line `j < ncs`: after
+    the clock edge line `j` is low iff chip `j` is selected in `cs` and (a transfer is in progress or `cs_mode = 1`);
+    so in manual mode the lines are the registered complement of `cs`, in automatic mode all lines are high outside
+    transfers; the control machine is the single-CS model (it never looks at `cs`) and line 0 is that model's `cs_n`, so
+    `spi_master_start / xfer / pulse_count / idle_inv` hold unchanged with several chip selects. -/
+theorem spi_master_cs_lines (c : SpiCfg) (ncs : Nat) (hn : 1 ≤ ncs) (s : SpiNSt) (i : SpiIn) (cs j : Nat) (hj : j < ncs) :
+    (spiNNext c ncs s i cs).csN.testBit j = !(cs.testBit j && (spiXfer s.core i || i.csMode)) ∧
+    (spiNNext c ncs s i cs).core = spiNext c s.core { i with cs := cs.testBit 0 } ∧
+    (spiNNext c ncs s i cs).csN.testBit 0 = (spiNNext c ncs s i cs).core.csN :=
+  ⟨csnOf_line ncs cs j _ hj, (spiN_core c ncs hn s i cs).1, (spiN_core c ncs hn s i cs).2⟩
+
+example : csnOf 4 0b0110 true = 0b1001 ∧ csnOf 4 0b0110 false = 0b1111 := by decide
+
+/-! ## SPI slave in pad terms -/
+
+/-- **spi_slave_pads.**  The signals `spi_slave_xfer` speaks about are the pads two cycles earlier (`cs` inverted), and
+    the edges it counts are pad edges between the third- and second-last cycle; and MISO is MSB first: after `f < dw`
+    falling edges inside a frame the pad shows bit `dw − 1 − f` of the word to send (`spi_slave_xfer` gives the
+    hypothesis `misoData ≡ tx·2^f`). -/
+theorem spi_slave_pads (dw : Nat) (s : SlvSt) (z a b : SlvIn) (tx f : Nat) (hf : f < dw) :
+    let e := slvNext dw (slvNext dw (slvNext dw s z) a) b
+    (e.c1 = a.clk ∧ e.s1 = !a.csN ∧ e.m1 = a.mosi ∧ e.rise = (a.clk && !z.clk) ∧ e.fall = (!a.clk && z.clk)) ∧
+    (∀ st : SlvSt, ∀ j : SlvIn, j.loopback = false → st.misoData % 2 ^ dw = (tx * 2 ^ f) % 2 ^ dw →
+       ((spiSlave dw).out st j).miso = tx.testBit (dw - 1 - f)) := by
+  intro e
+  have h1 := slv_sync dw s z a b
+  have h2 := slv_edges dw s z a b
+  simp only at h1 h2
+  refine ⟨⟨h1.1, h1.2.1, h1.2.2.1, h2.1, h2.2⟩, fun st j hl hm => ?_⟩
+  show (if j.loopback then st.m1 else st.misoData.testBit (dw - 1)) = _
+  simp only [hl, Bool.false_eq_true, if_false]
+  exact slv_miso_bit dw tx f st.misoData hf hm
+
+/-! ## Timer.add_uptime, MultiChannelPWM -/
+
+/-- **uptime.**  The free-running counter shows the number of cycles since reset (mod 2^64), and `uptime_cycles` holds
+    its value of the last cycle in which `uptime_latch` was written. -/
+theorem timer_uptime (pre post : List Bool) (hpost : ∀ l ∈ post, l = false) :
+    (uptimeM.run pre).cycles = pre.length % 2 ^ 64 ∧
+    (uptimeM.run (pre ++ true :: post)).latched = pre.length % 2 ^ 64 := by
+  have hc : (uptimeM.run pre).cycles = pre.length % 2 ^ 64 := by
+    rcases uptime_cycles pre uptimeM.init with h | h
+    · simpa [Machine.run, uptimeM] using h
+    · subst h; rfl
+  refine ⟨hc, ?_⟩
+  simp only [Machine.run, Machine.runFrom_append]
+  show (uptimeM.runFrom (uptimeNext (uptimeM.runFrom uptimeM.init pre) true) post).latched = _
+  rw [uptime_hold post hpost]
+  simp only [uptimeNext, if_true]
+  exact hc
+
+/-- **MultiChannelPWM.**  The shared counter is the counter of a single `PWM` driven with channel 0's enable and period
+    (so `pwm_wave` / `pwm_duty` describe it), and every channel's output register is loaded with
+    `enable_k ∧ counter < width_k`. -/
+theorem multichannel_pwm (s : McPwmSt) (period : Nat) (chans : List (Bool × Nat)) (k : Nat) (hk : k < chans.length) :
+    (mcPwmNext s period chans).counter =
+      (pwmNext { counter := s.counter, pwm := false }
+        { enable := (chans.headD (false, 0)).1, reset := false, width := 0, period := period }).counter ∧
+    (mcPwmNext s period chans).pwm[k]? = some (chans[k].1 && decide (s.counter < chans[k].2)) :=
+  ⟨mcpwm_counter s period chans false, mcpwm_channel s period chans k hk⟩
 
 end Litex.C19
